@@ -1034,7 +1034,7 @@ def run(ctx):
     setup_pool_and_patches()
     try:
         rng = ctx.rng
-        n_hist = ctx.n(260, 5000)
+        n_hist = ctx.n(260, 3000)
         max_len = ctx.n(25, 60)
         for h in range(n_hist):
             seed = rng.getrandbits(48)
